@@ -71,6 +71,8 @@ pub enum OpSpec {
     Wd(WatchdogAction),
     Safe(Vec<(IoAddress, Value)>),
     Dbg(IoAddress, Value),
+    Force(IoAddress, Value),
+    Release(IoAddress),
     Adv(i64),
     Cycle,
     Watchdog,
@@ -88,6 +90,8 @@ pub struct Case {
     pub pubtrap: bool,
     /// `IoInterface::resize(inputs, outputs, memory)` before the first cycle (None = leave empty)
     pub resize: Option<(usize, usize, usize)>,
+    /// clock values (ns) at which the cycle runs with an execution deadline in the past
+    pub expired_at: Vec<i64>,
     pub ops: Vec<OpSpec>,
 }
 
@@ -242,7 +246,7 @@ pub fn gen_case(rng: &mut Rng) -> Case {
         for _ in 0..ntraps {
             let p = rng.below(nprogs as u64) as usize;
             let pos = rng.below(progs[p].body.len() as u64 + 1) as usize;
-            let trap = Stmt::Trap(1 + rng.below(4) as u32, rng.below(4) as u8);
+            let trap = Stmt::Trap(1 + rng.below(7) as u32, rng.below(4) as u8);
             progs[p].body.insert(pos, trap);
         }
     }
@@ -250,12 +254,12 @@ pub fn gen_case(rng: &mut Rng) -> Case {
     let mut drivers: Vec<DrvScript> = (0..ndrv).map(|_| DrvScript::default()).collect();
     for d in drivers.iter_mut() {
         if rng.chance(1, 4) {
-            d.read_fail.push(rng.below(5) as usize);
+            d.read_fail.push(rng.below(9) as usize);
         }
         if rng.chance(1, 3) {
-            d.write_fail.push(rng.below(6) as usize);
+            d.write_fail.push(rng.below(10) as usize);
             if rng.chance(1, 3) {
-                d.write_fail.push(rng.below(8) as usize);
+                d.write_fail.push(rng.below(12) as usize);
             }
         }
         d.read_fail.sort();
@@ -285,23 +289,46 @@ pub fn gen_case(rng: &mut Rng) -> Case {
     if rng.chance(9, 10) {
         ops.push(OpSpec::Safe(gen_safe(rng)));
     }
-    let len = 10 + rng.below(10) as usize;
+    let len = 12 + rng.below(12) as usize;
+    let mut forced: Vec<IoAddress> = Vec::new();
+    let mut clock = 0i64;
+    let mut expired_at = Vec::new();
     for _ in 0..len {
         if rng.chance(4, 5) {
-            ops.push(OpSpec::Adv(*rng.pick(&[10i64, 10, 10, 10, 0, 5, 20, 30]) * MS));
+            let dt = *rng.pick(&[10i64, 10, 10, 10, 0, 5, 20, 30]) * MS;
+            clock += dt;
+            ops.push(OpSpec::Adv(dt));
+        }
+        if rng.chance(1, 40) {
+            // (the clock restarts at 0 on restart; a value that never occurs is harmless)
+            expired_at.push(clock);
         }
         let op = match rng.below(100) {
             0..=67 => OpSpec::Cycle,
-            68..=72 => OpSpec::Watchdog,
-            73..=76 => OpSpec::SimFault,
-            77..=82 => OpSpec::Restart(if rng.bool() { RestartMode::Warm } else { RestartMode::Cold }),
+            68..=70 => OpSpec::Watchdog,
+            71..=73 => OpSpec::SimFault,
+            74..=82 => OpSpec::Restart(if rng.bool() { RestartMode::Warm } else { RestartMode::Cold }),
             83..=84 => OpSpec::Clear,
             85..=87 => OpSpec::Policy(*rng.pick(&policies)),
             88..=89 => OpSpec::Wd(*rng.pick(&actions)),
-            90..=92 => OpSpec::Safe(gen_safe(rng)),
+            90..=91 => OpSpec::Safe(gen_safe(rng)),
+            92..=94 => {
+                if !forced.is_empty() && rng.chance(1, 3) {
+                    let i = rng.below(forced.len() as u64) as usize;
+                    OpSpec::Release(forced.remove(i))
+                } else {
+                    // mostly outputs (applied after the publish), some inputs/memory, some ill-typed
+                    let a = if !forced.is_empty() && rng.chance(1, 4) { rng.pick(&forced).clone() } else { gen_addr(rng, IoArea::Output) };
+                    let v = if rng.chance(1, 6) { gen_mismatched(rng, a.size) } else { gen_value_for(rng, a.size) };
+                    if !forced.contains(&a) {
+                        forced.push(a.clone());
+                    }
+                    OpSpec::Force(a, v)
+                }
+            }
             _ => {
                 let a = gen_addr(rng, IoArea::Input);
-                let v = if rng.chance(1, 3) { gen_mismatched(rng, a.size) } else { gen_value_for(rng, a.size) };
+                let v = if rng.chance(1, 5) { gen_mismatched(rng, a.size) } else { gen_value_for(rng, a.size) };
                 OpSpec::Dbg(a, v)
             }
         };
@@ -313,7 +340,9 @@ pub fn gen_case(rng: &mut Rng) -> Case {
         2 => Some((4, 32, 2)),
         _ => Some((rng.below(4) as usize, rng.below(24) as usize, rng.below(3) as usize)),
     };
-    Case { tasks, progs, drivers, retain, pubtrap, resize, ops }
+    expired_at.sort();
+    expired_at.dedup();
+    Case { tasks, progs, drivers, retain, pubtrap, resize, expired_at, ops }
 }
 
 fn addr(text: &str) -> IoAddress {
@@ -348,6 +377,7 @@ pub fn corpus() -> Vec<Case> {
             retain: None,
             pubtrap: false,
             resize: Some((2, 17, 1)),
+            expired_at: vec![],
             ops,
         });
     }
@@ -374,6 +404,7 @@ pub fn corpus() -> Vec<Case> {
             retain: None,
             pubtrap: false,
             resize: Some((2, 17, 1)),
+            expired_at: vec![],
             ops,
         });
     }
@@ -402,6 +433,7 @@ pub fn corpus() -> Vec<Case> {
             retain: None,
             pubtrap: false,
             resize: Some((2, 17, 1)),
+            expired_at: vec![],
             ops,
         });
     }
@@ -424,6 +456,7 @@ pub fn corpus() -> Vec<Case> {
             retain: None,
             pubtrap: true,
             resize: None,
+            expired_at: vec![],
             ops,
         });
     }
@@ -595,7 +628,7 @@ fn canon_err(e: &RuntimeError) -> String {
 
 /// The `Fault` event carries only the Display text of the error; map it back to the class.
 fn canon_display(text: &str) -> String {
-    let table: [(&str, &str); 10] = [
+    let table: [(&str, &str); 11] = [
         ("resource faulted", "ResourceFaulted"),
         ("watchdog timeout", "WatchdogTimeout"),
         ("simulation fault", "SimulationFault"),
@@ -605,6 +638,7 @@ fn canon_display(text: &str) -> String {
         ("arithmetic overflow", "Overflow"),
         ("invalid I/O address", "InvalidIoAddress"),
         ("retain store error", "RetainStore"),
+        ("execution timed out", "ExecutionTimeout"),
         ("i/o driver error '", "IoDriver:"),
     ];
     for (prefix, name) in table {
@@ -875,6 +909,7 @@ pub fn run_case(n: u64, case: &Case, out: &mut Out) -> Result<(), String> {
         Some(f) => out.line(format!("retain {}", if f.is_empty() { "-".to_string() } else { join(f.iter(), ",") })),
         None => out.line("retain none"),
     }
+    out.line(format!("expired {}", if case.expired_at.is_empty() { "-".to_string() } else { join(case.expired_at.iter(), ",") }));
     {
         let rt = h.runtime();
         let init: Vec<i64> = VARS
@@ -958,6 +993,19 @@ pub fn run_case(n: u64, case: &Case, out: &mut Out) -> Result<(), String> {
                 run.control.enqueue_io_write(a.clone(), v.clone());
                 out.count("op_dbg");
             }
+            OpSpec::Force(a, v) => {
+                out.line(format!("force {} {}", enc_addr(a), enc_value(v)));
+                if a.path.len() > 1 && !run.hier_seen.contains(a) {
+                    run.hier_seen.push(a.clone());
+                }
+                run.control.force_io(a.clone(), v.clone());
+                out.count("op_force");
+            }
+            OpSpec::Release(a) => {
+                out.line(format!("release {}", enc_addr(a)));
+                run.control.release_io(a);
+                out.count("op_release");
+            }
             OpSpec::Adv(dt) => {
                 out.line(format!("adv {dt}"));
                 run.h.advance_time(Duration::from_nanos(*dt));
@@ -966,7 +1014,14 @@ pub fn run_case(n: u64, case: &Case, out: &mut Out) -> Result<(), String> {
                 out.line("cycle");
                 let before = run.snapshot();
                 let was_faulted = run.h.runtime().faulted();
+                let now = run.h.runtime().current_time().as_nanos();
+                let deadline = case
+                    .expired_at
+                    .contains(&now)
+                    .then(|| std::time::Instant::now() - std::time::Duration::from_millis(1));
+                run.h.runtime_mut().set_execution_deadline(deadline);
                 err = run.h.runtime_mut().execute_cycle().err();
+                run.h.runtime_mut().set_execution_deadline(None);
                 changed = Some(run.snapshot() != before);
                 out.count("op_cycle");
                 match &err {
